@@ -175,38 +175,45 @@ theorem F8zero_link_to_failed_put :
     (put hash Disk.empty d 3 ⟨[[1]], .eof⟩).2 = .short ∧
     getB k1 d = .res .notExist ∧                                    -- … the cache reports the blob absent …
     (link hash false k1 nm d).2 = .ok ∧                            -- … and still links the name to it
-    (resolve hash (link hash false k1 nm d).1 nm).2 = .digest [] ∧
-    (link hash true k1 nm d).2 = .notExist := by decide
+    (resolve hash (link hash false k1 nm d).1 nm).2 = .digest [] := by decide
 
-/-- the repaired `Link` does require a present blob of the right content -/
+/-- the repaired `Link` (proposed_fixes/C08-F8.patch) links only verified bytes: when it answers ok, either
+    the name already held a manifest hashing to `d`, or the blob file's own bytes hash to `d` (or are empty:
+    zero-length manifests are used by upstream's push tests and stay linkable — finding F8-zero is not
+    repaired by the patch) -/
 theorem link_requires_blob_fixed (hash : Bytes → Digest) (k : Disk) (name : Bytes) (d : Digest)
     (hok : (link hash true k name d).2 = .ok) :
-    ∃ f, k.blob d = some f ∧ getB k d = .entry f.length ∧ hash f = d := by
+    ∃ f, k.blob d = some f ∧
+      (f = [] ∨ hash f = d ∨
+        ∃ want g, nameToPath name = some want ∧ manGet k.mans (manifestPathOf k.mans want) = some g ∧ hash g = d) := by
   unfold link at hok
-  split at hok
-  · cases hok
-  · split at hok
-    · cases hok
-    · next f hf =>
-      simp only [if_true] at hok
+  cases hp : nameToPath name with
+  | none => simp [hp] at hok
+  | some want =>
+    simp only [hp] at hok
+    cases hb : k.blob d with
+    | none => simp [hb] at hok
+    | some f =>
+      simp only [hb, if_true] at hok
+      refine ⟨f, rfl, ?_⟩
       split at hok
-      · cases hok
-      · next hz =>
-        refine ⟨f, hf, by simp [getB, hf, hz], ?_⟩
-        split at hok
-        · next hr =>
-          have ht : Trusted hash none d f.length := trusted_none hash d f.length
-          obtain ⟨f', hrun, _, hh⟩ := copyNamed_ok_file hash none d f.length ⟨[f], .eof⟩ hz ht hr
-          -- the copy of `f` is `f`
-          have : (copyNamedEffs hash none d f.length ⟨[f], .eof⟩).2 = .ok := hr
-          unfold copyNamedEffs at hrun this
-          simp only [Option.map_none, reduceCtorEq, if_false] at hrun this
-          rw [afterStat_res _ _ _ _ _ hz] at this
-          rw [afterStat_effs_ok _ _ _ _ _ hz this] at hrun
-          have hl := copyLoop_ok hash d f.length [] (by simp; omega) [f] [] .eof (seenOK_nil hash d _ hz) this
-          simp only [overlay_nil, List.nil_append, List.flatten_cons, List.flatten_nil, List.append_nil] at hl
-          exact hl.2.2
-        · next hne => exact absurd hok (by simpa using hne)
+      · next hm =>
+        right; right
+        cases hg : manGet k.mans (manifestPathOf k.mans want) with
+        | none => simp [hg] at hm
+        | some g => simp [hg] at hm; exact ⟨want, g, rfl, hg, hm⟩
+      · by_cases hz : f.length = 0
+        · left; exact List.eq_nil_of_length_eq_zero hz
+        · right; left
+          split at hok
+          · next hr =>
+            unfold copyNamedEffs at hr
+            simp only [Option.map_none, reduceCtorEq, if_false] at hr
+            rw [afterStat_res _ _ _ _ _ hz] at hr
+            have hl := copyLoop_ok hash d f.length [] (by simp; omega) [f] [] .eof (seenOK_nil hash d _ hz) hr
+            simp only [List.nil_append, List.flatten_cons, List.flatten_nil, List.append_nil] at hl
+            exact hl.2.2
+          · next hne => exact absurd hok (by simpa using hne)
 
 /-! ## concurrent writers of one blob -/
 
@@ -381,22 +388,36 @@ theorem link_then_resolve_fixed (hash : Bytes → Digest) (k : Disk) (name : Byt
     (f : Bytes) (want : MPath)
     (hat : splitNameDigest name = (name, []))
     (hp : nameToPath name = some want)
-    (hb : k.blob d = some f) (hh : hash f = d) (hf : f ≠ []) :
+    (hb : k.blob d = some f) (hh : hash f = d) :
     (link hash true k name d).2 = .ok ∧
     (resolve hash (link hash true k name d).1 name).2 = .digest d := by
   subst hh
-  have hz : f.length ≠ 0 := by intro e; exact hf (List.eq_nil_of_length_eq_zero e)
-  have hlink : link hash true k name (hash f) =
-      ({ k with mans := manSet k.mans (manifestPathOf k.mans want) (some f) }, .ok) := by
-    unfold link
-    simp only [hp, hb, if_true, hz, if_false, copyNamed_exact_ok]
-  rw [hlink]
-  refine ⟨rfl, ?_⟩
-  unfold resolve
-  simp only [hat, ne_eq, not_true_eq_false, if_false, hp, manifestPathOf_manSet, manGet_manSet_same]
-  have hok : ∀ k', (put hash k' (hash f) f.length ⟨[f], .eof⟩).2 = .ok := by
-    intro k'; unfold put; exact copyNamed_exact_ok hash _ f
-  simp only [hok]
+  have hok : ∀ (k' : Disk) (g : Bytes), (put hash k' (hash g) g.length ⟨[g], .eof⟩).2 = .ok := by
+    intro k' g; unfold put; exact copyNamed_exact_ok hash _ g
+  by_cases hm : (manGet k.mans (manifestPathOf k.mans want)).map hash = some (hash f)
+  · -- already linked to a manifest with this digest: nop
+    have hlink : link hash true k name (hash f) = (k, .ok) := by
+      unfold link; simp only [hp, hb, if_true, hm]
+    rw [hlink]
+    refine ⟨rfl, ?_⟩
+    cases hg : manGet k.mans (manifestPathOf k.mans want) with
+    | none => simp [hg] at hm
+    | some g =>
+      simp only [hg, Option.map_some, Option.some.injEq] at hm
+      unfold resolve
+      simp only [hat, ne_eq, not_true_eq_false, if_false, hp, hg]
+      rw [← hm]
+      simp only [hok]
+  · have hrun : run (copyNamedEffs hash none (hash f) f.length ⟨[f], .eof⟩).1 none = some f :=
+      copyNamed_exact_file hash none f (by simp)
+    have hlink : link hash true k name (hash f) =
+        ({ k with mans := manSet k.mans (manifestPathOf k.mans want) (some f) }, .ok) := by
+      unfold link
+      simp only [hp, hb, if_true, hm, if_false, copyNamed_exact_ok, hrun]
+    rw [hlink]
+    refine ⟨rfl, ?_⟩
+    unfold resolve
+    simp only [hat, ne_eq, not_true_eq_false, if_false, hp, manifestPathOf_manSet, manGet_manSet_same, hok]
 
 /-- non-vacuity of `link_then_resolve_partial`: name `h/n/m:t`, a 3-byte blob, nothing linked yet -/
 example : splitNameDigest nm = (nm, []) ∧ (nameToPath nm).isSome = true ∧
